@@ -6,4 +6,4 @@ if ! git diff --quiet; then echo "repo dirty"; exit 9; fi
 if ! git apply /verif/seeded/$name/patch.diff; then echo "PATCH DOES NOT APPLY to current /repo HEAD"; exit 8; fi
 cd /verif
 for c in "$@"; do echo "--- $c $tier against $name"; ./check $c $tier 2>&1 | grep -E "^(VIOLATION|OK|INCONCLUSIVE|KNOWN)|^  " | head -4 | cut -c1-400; done
-cd /repo && git checkout -- . && git status --short
+cd /repo && git checkout -- . && git status --short; git -C /verif checkout -- evidence 2>/dev/null
